@@ -383,7 +383,9 @@ def evaluate(griffe, case):
 # the decorator itself may only arrive through the wildcard import; a third module inherits once more.  CPython imports the package; same comparison.
 XM_ALLS = {"no-all": "", "all-classes": '__all__ = ["Base", "Mixin"]\n', "all-with-decorator": '__all__ = ["Base", "Mixin", "dataclass"]\n'}
 XM_IMPORTS = {"from-import": ("from .base import Base, Mixin\n", "Mixin, Base"), "wildcard": ("from .base import *\n", "Mixin, Base"),
-              "renamed": ("from pkg_c18x.base import Base as B, Mixin as M\n", "M, B"), "dotted-module": ("import pkg_c18x.base as pb\n", "pb.Mixin, pb.Base")}
+              "renamed": ("from pkg_c18x.base import Base as B, Mixin as M\n", "M, B"), "dotted-module": ("import pkg_c18x.base as pb\n", "pb.Mixin, pb.Base"),
+              # bases written with three dotted names (every name resolves through the one before it)
+              "dotted-three-names": ("import pkg_c18x.base\n", "pkg_c18x.base.Mixin, pkg_c18x.base.Base")}
 
 
 def _xm_cases():
@@ -406,12 +408,14 @@ def _xm_files(case):
     istmt, bases = XM_IMPORTS[imp]
     if deco == "through-compat-module":
         # every module takes the decorator from a compatibility module of the package, which imports it from dataclasses
-        base = base.replace("from dataclasses import dataclass, field, KW_ONLY\n", "from ._compat import dataclass, field, KW_ONLY\n")
+        base = base.replace("from dataclasses import dataclass, field, KW_ONLY\n", "from ._compat import dataclass, field, KW_ONLY, ClassVar\n")
+        # (a class variable whose ClassVar reaches the module through the compatibility module too: not a field)
+        base = base.replace("class Base:\n    a: int\n", "class Base:\n    registry: ClassVar[dict] = {}\n    a: int\n")
     child = istmt + ("from dataclasses import dataclass\n" if deco == "own-import" else "from pkg_c18x._compat import dataclass, field, KW_ONLY\n" if deco == "through-compat-module" else "") + f"@dataclass\nclass Child({bases}):\n" + ("    c: int = 2\n" if deco == "own-import" else "    c: int = field(default=2)\n    _: KW_ONLY\n    d: int = 3\n") + f"class Plain({bases.split(', ')[1]}):\n    pass\n"
     gimp = "from .child import Child\n" if grand == "from-import" else "from .child import *\n"
     grand_src = gimp + "import dataclasses\n@dataclasses.dataclass\nclass Grand(Child):\n    g: int = 3\n"
     return {"pkg_c18x/__init__.py": "" if init == "empty" else "from .grand import *\nfrom .child import *\n", "pkg_c18x/base.py": base, "pkg_c18x/child.py": child, "pkg_c18x/grand.py": grand_src,
-            "pkg_c18x/_compat.py": "from dataclasses import dataclass, field, KW_ONLY\n"}
+            "pkg_c18x/_compat.py": "from dataclasses import dataclass, field, KW_ONLY\ntry:\n    from typing import ClassVar\nexcept ImportError:\n    from typing_extensions import ClassVar\n"}
 
 
 def _run_xm(griffe, acc, only=None):
